@@ -21,10 +21,10 @@ if ! git apply "$patch" 2>/dev/null && ! git apply --3way "$patch" 2>/dev/null; 
 withp=$(cargo test --offline --test demo 2>&1 | grep -E "^test result|^error(\[|:)" | head -1)
 rm -f tests/demo.rs
 suite=$(cargo test --workspace --no-fail-fast --offline 2>&1 | grep -E "^test result" | head -1)
-out="$(/verif/tools/with_repo.sh "$wt" "$id" "$tier" 2>/dev/null)"
+out="$(FV_ALT_NS=s /verif/tools/with_repo.sh "$wt" "$id" "$tier" 2>/dev/null)"
 code="$(echo "$out" | grep -o 'EXIT=[0-9]*' | tail -1)"
 sig="$(echo "$out" | grep -m1 '^violation sig=' | cut -c1-160)"
 evals="$(echo "$out" | grep -E "^$id $tier" | grep -o 'cases=[0-9]*')"
 git checkout -q -- . ; git clean -qfd -e target
-rm -rf /tmp/fvalt-$id-*
+rm -rf /tmp/fvalts-$id-*
 echo "$id $(basename $patch): demo-base[${base#test result: }] demo-patched[${withp#test result: }] suite[${suite#test result: }] check:$code $evals $sig"
